@@ -301,7 +301,12 @@ func recordObjects(out *core.Out, args []string, seed int64, sum *core.Summary) 
 			maxn, _ = strconv.Atoi(v)
 		}
 	}
-	rnd := rand.New(rand.NewSource(seed*7919 + 17))
+	salt := ""
+	for _, a := range args {
+		if k, v, _ := strings.Cut(a, "="); k == "salt" {
+			salt = v
+		}
+	}
 	srcLen := func(kind string, n int) int {
 		// number of elements the transform of an object of length n takes (plumbing: the slice
 		// lengths the API documents; whether a call with other lengths must panic is the spec's decision)
@@ -317,6 +322,9 @@ func recordObjects(out *core.Out, args []string, seed int64, sum *core.Summary) 
 		return n
 	}
 	for _, typ := range types {
+		hs := fnv.New64a()
+		fmt.Fprintf(hs, "%d/%s/%s", seed, typ, salt)
+		rnd := rand.New(rand.NewSource(int64(hs.Sum64())))
 		for h := 0; h < hist; h++ {
 			out.Emit(event{Op: "Clear", Type: typ})
 			// a small palette of lengths makes revisits of the same (kind, n, input) likely
